@@ -57,6 +57,17 @@ where
         }
     }
 
+    /// Verification hook: construct an `Rms` from an explicit window and running sum of squares.
+    #[cfg(rustaudio_dasp_verif)]
+    #[doc(hidden)]
+    pub fn verif_from_state(window: ring_buffer::Fixed<S>, square_sum: F::Float) -> Self {
+        Rms {
+            frame: PhantomData,
+            window,
+            square_sum,
+        }
+    }
+
     /// Zeroes the square_sum and the buffer of the `window`.
     ///
     /// ```
